@@ -241,8 +241,9 @@ pub fn closed_tcp_port(ip: IpAddr) -> Option<u16> {
 
 /// Transport fidelity: replays a case whose scripted run succeeded over real loopback sockets, with a fresh
 /// responder from `make`, and demands the same value. A differing run is retried twice with a fresh server
-/// (datagrams can be dropped under load); a persistent difference is a harness error (the scripted transport
-/// would not be a faithful stand-in). A timeout on the real sockets is tolerated and not counted.
+/// (datagrams can be dropped under load); a persistent difference is returned to the caller, which reports it as a
+/// violation: the reply is well-formed and the library, over its real transport, does not return it (on the unchanged
+/// tree both transports agree on every sampled trace). A timeout on the real sockets is tolerated and not counted.
 pub fn fidelity<T: PartialEq>(
     what: &str,
     proto: Proto,
@@ -251,26 +252,28 @@ pub fn fidelity<T: PartialEq>(
     read_ms: u64,
     call: impl Fn(SocketAddr, Option<gamedig::protocols::types::TimeoutSettings>) -> gamedig::GDResult<T>,
     validated: &std::sync::atomic::AtomicU64,
-) {
-    let crate::wire::Ended::Ok(want) = &scripted.ended else { return };
+) -> Option<String> {
+    let crate::wire::Ended::Ok(want) = &scripted.ended else { return None };
     let lo: IpAddr = std::net::Ipv4Addr::LOCALHOST.into();
     let mut last = String::new();
     for attempt in 0 .. 3u64 {
         let mk = make.clone();
-        let Some(real) = RealServer::start(proto, lo, Box::new(move || mk())) else { return };
+        let Some(real) = RealServer::start(proto, lo, Box::new(move || mk())) else { return None };
         let d = Duration::from_millis(read_ms * (attempt + 1));
         let t = gamedig::protocols::types::TimeoutSettings::new(Some(d), Some(d), Some(Duration::from_secs(3)), 0).ok();
         let r = crate::wire::run_plain(|| call(real.addr, t));
         match &r.ended {
             crate::wire::Ended::Ok(got) if got == want => {
                 validated.fetch_add(1, Ordering::Relaxed);
-                return;
+                return None;
             }
             crate::wire::Ended::Err(gamedig::GDErrorKind::PacketReceive) => last = "PacketReceive".into(),
             other => last = other.kind_str(),
         }
     }
+    let _ = what;
     if last != "PacketReceive" {
-        panic!("transport fidelity ({what}): the scripted wire gives Ok but real loopback sockets give {last}");
+        return Some(last);
     }
+    None
 }
